@@ -139,10 +139,14 @@ theorem sim_purge : Sim n (fun _ => True) (purge (σ := St V)) (purge (σ := ATa
   unfold purge
   sim_auto
 
+theorem sim_purgeE : Sim n (fun _ => True) (purgeE (σ := St V)) (purgeE (σ := ATab V)) := by
+  unfold purgeE
+  sim_auto
+
 theorem sim_operateStr (o : Ops V) (rpn : List String) :
     Sim n (fun _ => True) (operateStr (σ := St V) o rpn) (operateStr (σ := ATab V) o rpn) := by
   unfold operateStr
-  exact sim_tryFinally (sim_evaluate o rpn) sim_purge
+  exact sim_tryFinally (sim_evaluate o rpn) sim_purgeE
 
 
 /-- a list handed to create / bracket assignment covers the track (Python raises IndexError mid-way otherwise
